@@ -62,6 +62,16 @@ def rle_q(prop, n, hdr, cap=None, to=900):
     return Query(nm, "array/rle.c", ["varintRLE.c"] + T, defs=d, checks="mem", unwind=24 + 10 * n, unwind_fn=LIB9, timeout=to, weight=3 * n)
 
 
+def rle_repl_q(prop, n, repl, hdr, to=900):
+    """run-length boundary instances: repl copies of one symbolic value + (n - repl) copies of another"""
+    d = {"N": n, "REPL": repl, "HDR": hdr, "PROP": prop}
+    if prop == 13:
+        d["CAP"] = n - 1
+    return Query("rle-%s-run%d-of-%d" % ("hdr" if hdr else "plain", repl, n), "array/rle.c", ["varintRLE.c"] + T, defs=d, checks="mem",
+                 unwind=n + 3, unwind_fn={"varintTagged*": 9, "ref_tagged_len": 9}, timeout=to, weight=4,
+                 extra=["--max-field-sensitivity-array-size", "300"])
+
+
 def dict_q(prop, n, cap=None, to=900):
     d = {"N": n, "PROP": prop}
     nm = "dict-n%d" % n
@@ -147,6 +157,11 @@ def codec_queries(prop, tier):
                     qs.append(rle_q(13, n, hdr, cap=cap))
             else:
                 qs.append(rle_q(prop, n, hdr))
+    # run-length boundaries of the tagged run-length varint
+    for (n, repl) in (((242, 241), (257, 256)) if q else ((241, 240), (242, 241), (256, 255), (257, 256), (242, 1))):
+        for hdr in ((0,) if q else (0, 1)):
+            if prop in (2, 3, 16):
+                qs.append(rle_repl_q(prop, n, repl, hdr))
     # ---- dict
     if prop in (2, 3, 13):
         for n in ((2,) if q else (1, 2, 3)):
@@ -174,6 +189,10 @@ def codec_queries(prop, tier):
             else:
                 qs.append(bp_q(prop, kind, n))
         bws = ((1, 9) if q else (0, 1, 2, 7, 8, 9, 16, 31, 32)) if kind in (0, 2) else ((1, 33) if q else (0, 1, 7, 8, 9, 31, 32, 33, 63, 64))
+        if q and prop in (2, 13) and kind in (1, 3):
+            # quick budget: the 64-bit scaled round trips cost 2-13 minutes each; quick keeps enc64 at bit width 1,
+            # the rest (and delta64) runs in the thorough tier; C03/C16 keep all four kinds in quick
+            bws = (1,) if kind == 1 else ()
         for bw in bws:
             for n in ((5,) if q else (4, 5, 9)):
                 if prop == 13:
